@@ -696,7 +696,11 @@ class RowWiseModifiedBisectionSearch:
                 nbh_start = nbh_max
                 # continueLoop = True
                 # highT_e = T_lower
+                # the complete sparsest field is known to be satisfactory; it is the answer unless a subset also is
+                selected_coordinates = starting_field
                 selected_specifier = lower_field_specifier
+                selected_temp_excess = t_lower
+                selected_spacing = spacing_stop
                 i = 0
                 while i < self.max_iter:
                     nbh = (nbh_max + nbh_min) // 2
